@@ -32,6 +32,7 @@ pub fn restricted_group(g: &GroupView) -> serde_json::Value {
         "pending_commit": m.map(|m| m.pending_commit),
         "record_epoch": g.record.as_ref().map(|r| (r.epoch, r.state.clone(), r.name.clone(), r.nostr_group_id.clone())),
         "messages": g.messages.iter().map(|x| (x.id.clone(), x.pubkey.clone(), x.content.clone(), x.state.clone(), x.kind, x.created_at, x.tags.clone())).collect::<Vec<_>>(),
+        "processed_at": g.messages.iter().map(|x| (x.id.clone(), x.processed_at)).collect::<Vec<_>>(),
     })
 }
 
@@ -62,7 +63,7 @@ impl Oracle for C07 {
             for (k, gv) in &w.views[node].groups {
                 if let Some(pg) = w.prev_view.groups.get(k) {
                     let (a, b) = (restricted_group(pg), restricted_group(gv));
-                    for key in ["epoch", "authenticator", "members", "ext", "pending_proposals", "pending_commit", "record_epoch", "messages"] {
+                    for key in ["epoch", "authenticator", "members", "ext", "pending_proposals", "pending_commit", "record_epoch", "messages", "processed_at"] {
                         if a[key] != b[key] {
                             what.push(format!("{key}: {} -> {}", a[key], b[key]));
                         }
